@@ -27,14 +27,6 @@ template <class T> static void run_T(Choice &c, Ctx &cx)
     static const char *tn[] = {"NOTRANS", "TRANS", "CONJ"};
     cx.label(fmt("droprule=0x%x", io.droprule)); cx.label(io.rowperm == LargeDiag_MC64 ? "rowperm=MC64" : "rowperm=NO"); cx.label(fmt("milu=%d", (int)io.milu)); cx.label(std::string("trans=") + tn[o.trans]);
     if (cplx && o.nr && o.trans == CONJ && cx.is_known("F07")) { cx.exclude("F07"); o.trans = TRANS; }
-    // Known finding F-ILU-ZCOL: a column of the matrix as factored that holds only explicit zeros gets the "small" pivot
-    // ||A(:,j)|| * FillTol^(1-j/n) = 0, so U is returned with a zero on its diagonal.
-    {
-        std::vector<char> colnz(n, 0), rownz(n, 0);
-        for (int j = 0; j < n; ++j) for (auto &en : G.col[j]) if (en.second.re != 0 || en.second.im != 0) { colnz[j] = 1; rownz[en.first] = 1; }
-        bool zc = false; for (int j = 0; j < n; ++j) if (!(o.nr ? rownz[j] : colnz[j])) zc = true;
-        if (zc && cx.is_known("F-ILU-ZCOL")) { cx.exclude("F-ILU-ZCOL"); cx.label("F-ILU-ZCOL(excluded)"); return; }
-    }
     // Known finding F-ILU-WORK2: without DROP_INTERP the secondary dropping rule copies a U column (which may hold more than n
     // entries because ILU keeps repeated row indices) into an n-entry scratch array.  Route around it: interpolate instead.
     if ((io.droprule & DROP_SECONDARY) && !(io.droprule & DROP_INTERP) && cx.is_known("F-ILU-WORK2")) { cx.exclude("F-ILU-WORK2"); io.droprule |= DROP_INTERP; }
